@@ -520,7 +520,7 @@ def run_case(case, col, record=True):
 # ------------------------------------------------------------------------------------
 
 D = 'ABCDEFGHIJKLMNOPQRSTUVWXYZ0123456789_'
-NASTY = list('ABCXYZabcxyz0189__--..;; ~+$\x01\x07\x1f\x7f') + list(EXPANDERS) + ['ı', '́', '̈', 'é', 'Ж', 'ж', '日', '😀', '𝔘']
+NASTY = list('ABCXYZabcxyz0189__--..;; ~+$\x01\x07\x1f\x7f\n\r\t') + list(EXPANDERS) + ['ı', '́', '̈', 'é', 'Ж', 'ж', '日', '😀', '𝔘']
 
 d_text = lambda a, b: st.text(alphabet=D, min_size=a, max_size=b)
 
@@ -538,9 +538,10 @@ nasty_name = st.one_of(
     st.text(alphabet=st.sampled_from(NASTY), min_size=28, max_size=34),
     st.text(alphabet=st.sampled_from(NASTY), min_size=200, max_size=260),
     # mostly tame with a few nasty characters: reaches the truncation limits exactly
-    st.builds(lambda base, odd, pos, ext: (base[:pos % (len(base) + 1)] + odd + base[pos % (len(base) + 1):]) + ext,
+    st.builds(lambda base, odd, pos, ext, tail: (base[:pos % (len(base) + 1)] + odd + base[pos % (len(base) + 1):]) + ext + tail,
               st.text(alphabet='abcdefXYZ0189_', min_size=1, max_size=33), st.sampled_from(list(EXPANDERS) + ['', '', '-', ' ', '.', 'é', '😀']),
-              st.integers(0, 40), st.sampled_from(['', '', '.txt', '.TXT', '.t', '.html', '.', '.ßß', '.tar.gz'])),
+              st.integers(0, 40), st.sampled_from(['', '', '.txt', '.TXT', '.t', '.html', '.', '.ßß', '.tar.gz', '.md', '.c']),
+              st.sampled_from(['', '', '', '', '\n', '\r', ' ', '\t', '\x7f'])),
 ).map(fix)
 
 
